@@ -8,7 +8,7 @@ from vlib import core
 TRUST = ("Lean 4.33 kernel; axioms at most propext/Classical.choice/Quot.sound (audited per run by #audit_module); "
          "hand-written model tied to the C++ by the correspondence harness (differential, exact, generator-bounded); ")
 MANIFEST = dict(
-  text=("Theorems (Props/C17.lean, 27) about executable models of the three tree constructions, of IterativeNNQuery and of "
+  text=("Theorems (Props/C17.lean, 27; Gen/NNStateless.lean, 2 regenerated from the C++ per run) about executable models of the three tree constructions, of IterativeNNQuery and of "
         "NearestNeighborModel.  QUERY (trace tree with NONE/PARTIAL/COMPLETE marks, queue ordered by (distance, tie rank), squaredRadius, "
         "head pointer, nextIndex), for EVERY tree shape, every admissible lower-bound function, every query and number of next() calls: "
         "squaredRadius never exceeds the distance of a point not yet queued (radius_is_lower_bound); where every queue entry carries the true "
@@ -50,7 +50,25 @@ MANIFEST = dict(
         "votes for class 0); generated integer point sets (1-6 dim; grid, collinear, duplicates with differing labels, all points equal, one "
         "varying coordinate, points on the cut value, two values; coordinates times 2^e for e in -20..30), data batches of 1/2/3/4/7/one, "
         "KDTree/LCTree/KHCTree(linear)/KHCTree((<x,y>+1)^2), bucket sizes 1-4, depth limits, k=1/k=n/1<k<n, a second tree on the same data; "
-        "a slice re-run with 3 OpenMP threads.  Independent brute-force oracle in the harness (ASan/UBSan), by definition."),
+        "a slice re-run with 3 OpenMP threads.  Independent brute-force oracle in the harness (ASan/UBSan), by definition.  "
+        "SCALES: every coordinate times 2^e, e in {-40,-35,-30,-25,-20,-14,-7,9,16,23,30,40}: a fifth of the generated stream plus a "
+        "group in which every e gets its share on every run (kd, LC, KHC, all bucket sizes); squared distances stay exact, so the "
+        "brute-force oracle demands EQUALITY with exhaustive search at every scale (a tolerance anywhere in the search is scale "
+        "dependent and yields a concrete failing input), and the pruning test of IterativeNNQuery::enqueue is extracted from the C++ on "
+        "every run and must be the model's pure comparison `bound >= best` (Gen/NNStateless.lean, prune_test_is_pure_comparison).  "
+        "ONE CONST TREE SHARED BY THREADS (NearestNeighborModel evaluates the batches of a data set in an OpenMP loop, so this is "
+        "ordinary use): op `mt` (harness/c17_mt.cpp), every run: a FRESH kd/LC/KHC/KHC-poly tree (data offset from the origin by "
+        "+-2^5..2^20, spans 4-64: ties and duplicates; bucket sizes, depth limits, scales as above) is built 12 (thorough 16) times and, "
+        "as its very first use, evaluated by 2-4 threads at once - alternately model(queryData) (the library's own parallel loop) and "
+        "TreeNearestNeighbors::getNeighbors on all batches in a parallel loop - on query sets of 2-8 batches (half of the cases with the "
+        "SAME query points in every batch so that the threads reach the same unvisited nodes together; queries inside, on data points, "
+        "at the origin / mirror image); every repetition is compared with exhaustive search exactly (distances, order, labels, "
+        "predictions of both back-ends; independent brute-force oracle) and with the Lean model's exhaustive search (to which the tree "
+        "search is equal by the *_search_exact theorems); the same family under ThreadSanitizer (clang-14 + libomp + Archer: a race "
+        "between threads on the tree / back-end / DataView is reported whether or not it changed a result); and a regenerated "
+        "obligation: the tree, query, back-end, model and DataView headers contain no `mutable` member, no const_cast and no static "
+        "datum (translate/nn_stateless.py -> Gen/NNStateless.lean, tree_and_query_classes_hold_no_hidden_state; reviewed exceptions in "
+        "translate/nn_stateless_allow.json, none)."),
   note=TRUST + "all compared quantities are exact on the integer grid (squared distances; the reported sqrt is compared through its "
        "square with the nearest-double rule); the order std::nth_element leaves inside a range and the heap-address tie-break are "
        "adopted from the real tree (harness annotation, tools/c17_drv.py) - therefore the LC/KHC pivot pair is READ from the real node and "
@@ -63,20 +81,27 @@ MANIFEST = dict(
        "distances, and only where the model reproduces the output line). Open findings found in this round: NB1 (m_neighbors counts leaves: "
        "neighbors() wrong, next() beyond n reads the empty queue; probed on every run, k > n generated only on single-point leaves while "
        "open) and REG1 (regression model's setDistanceWeightType cannot be instantiated; compile probe); K1 and NB1 share the validated "
-       "patch C17-K1.patch. Findings T1, R1, L1, S1, KH1 were fixed in /repo; their inputs stay in corpus/C17.",
-  technique="Lean 4 invariant proof over the query state machine and structural induction over the three tree constructions (all inputs) + exact differential correspondence with the C++ (ASan/UBSan) + brute-force oracle",
+       "patch C17-K1.patch. Findings T1, R1, L1, S1, KH1 were fixed in /repo; their inputs stay in corpus/C17. "
+       "Concurrency: the Lean model is sequential and pure; that the C++ search is a function of (tree, query) also when the tree is "
+       "shared is established by the source inventory (token level: declarations `mutable`/const_cast/static, not writes through "
+       "pointers held by the object), ThreadSanitizer and the repeated fresh-tree runs (schedule dependent: a sample of schedules, "
+       "not all of them); a replay of such a failure repeats the op 5 times. In the fresh-tree family the coordinates reach 2^20 "
+       "(kd) / 2^10 (LC, KHC) / 2^7 (KHC-poly) with at most 8 dimensions: squared distances stay below 2^48 and exact.",
+  technique="Lean 4 invariant proof over the query state machine and structural induction over the three tree constructions (all inputs) + exact differential correspondence with the C++ (ASan/UBSan) + brute-force oracle at all power-of-two scales + fresh trees shared by OpenMP threads (brute force, ThreadSanitizer) + source-regenerated no-hidden-state / pruning-test obligations",
   design="§6 C17, §14 C17")
 
 FINISH = dict(level="proof",
-              rule="cases = (batch size, integer point set, labels, tree kind/bucket/depth, queries, batched knn/model calls) from one "
+              rule="fresh-tree cases = (scale, offset point cloud, labels, tree kind/bucket/depth, k, threads, repetitions, query batches) "
+                   "from a forked stream, each `mt` op = that many fresh trees each evaluated concurrently; "
+                   "cases = (batch size, integer point set, labels, tree kind/bucket/depth, queries, batched knn/model calls) from one "
                    "SplitMix64 stream; every query is run for n next() calls (all k at once) and compared state by state; a case is non-trivial if n >= 4 and the tree "
                    "has inner nodes; distinct = distinct op text")
 
 # one annotation directory per check process (several seeds may run at once)
 ANNOT = os.path.join(core.CACHE, f"c17-annot-{os.getpid()}")
 DRV_WRAPPER = os.path.join(core.VERIF, "tools", "c17_drv.py")
-LAKE_TARGETS = ["SharkVerif.Props.C17", "drv_c17"]
-PROP_MODULES = ["SharkVerif.Props.C17"]
+LAKE_TARGETS = ["SharkVerif.Props.C17", "SharkVerif.Gen.NNStateless", "drv_c17"]
+PROP_MODULES = ["SharkVerif.Props.C17", "SharkVerif.Gen.NNStateless"]
 # the searches are sequential; OpenMP worker threads of SimpleNearestNeighbors would only spin
 ENV = {"OMP_NUM_THREADS": "1", "OMP_WAIT_POLICY": "passive"}
 
@@ -177,7 +202,12 @@ ROOT_LEAF_OK = True
 BEYOND_N_OK = False
 
 
-def gen_case(r, ctx, kinds, allow_lc_dups, big, buckets):
+# every coordinate times 2^e: squared distances (<= 2^28 grid units) stay exact for all of these, so the brute-force
+# oracle demands equality with exhaustive search at every scale (a tolerance anywhere in the search is scale dependent)
+SCALES = [-40, -35, -30, -25, -20, -14, -7, 9, 16, 23, 30, 40]
+
+
+def gen_case(r, ctx, kinds, allow_lc_dups, big, buckets, scales=None):
     kind = r.choice(kinds)
     bucket = r.choice(buckets)
     allow_dups = kind == "kd" or allow_lc_dups
@@ -191,7 +221,10 @@ def gen_case(r, ctx, kinds, allow_lc_dups, big, buckets):
     ops = []
     # huge / tiny magnitudes: all coordinates times 2^e (every squared distance stays exact); not for the
     # polynomial kernel, whose offset 1 does not scale
-    e = r.choice([-20, -7, 16, 30]) if (kind != "khcp" and r.chance(1, 7)) else 0
+    if scales is not None and kind != "khcp":
+        e = r.choice(scales)
+    else:
+        e = r.choice(SCALES) if (kind != "khcp" and r.chance(1, 5)) else 0
     ops.append(f"scale {e}")
     ctx.hist("coordinate_scale_2^e", e)
     if r.chance(1, 3):      # batch structure of the data set (default: batches of 3)
@@ -267,7 +300,7 @@ def is_known(key):
 
 
 def classify(ops, res):
-    kinds = "+".join(sorted({o.split()[1] for o in ops if o.startswith("build ")}))
+    kinds = "+".join(sorted({o.split()[1] for o in ops if o.startswith(("build ", "mt "))}))
     if res.crash:
         # (the tail of stderr is kept: ASan's SUMMARY line survives a long recursion trace)
         m = re.search(r"(?:ERROR|SUMMARY): AddressSanitizer: (\S+)|runtime error: ([^\n]*)", res.stderr)
@@ -394,10 +427,171 @@ def correspond(ctx, name, cases, hcmd, dcmd, ENV=ENV):
     return 0
 
 
+def _suffix():
+    return "" if core.REPO == "/repo" else "-" + core.sha(core.REPO)[:8]
+
+
+def translate(ctx):
+    return ctx.translate("nn_stateless.py")
+
+
 def build(ctx):
     # one cached binary per repo tree (scratch worktrees via VERIF_REPO do not evict the /repo build)
-    name = "c17" if core.REPO == "/repo" else "c17-" + core.sha(core.REPO)[:8]
-    return ctx.harness(name, ["c17.cpp"])
+    from concurrent.futures import ThreadPoolExecutor
+    with ThreadPoolExecutor(max_workers=3) as ex:
+        f1 = ex.submit(ctx.harness, "c17" + _suffix(), ["c17.cpp"])
+        f2 = ex.submit(ctx.harness, "c17_mt" + _suffix(), ["c17_mt.cpp"])
+        f3 = ex.submit(build_tsan, ctx)
+        exe, mt = f1.result(), f2.result()
+        try:
+            tsan = f3.result()
+        except Exception as e:
+            ctx.log(f"tsan build failed: {e}"); tsan = None
+    ctx._c17_mt = (mt, tsan)
+    return exe
+
+
+C17_HEADERS = ["include/shark/Models/Trees", "include/shark/Algorithms/NearestNeighbors", "include/shark/Models/NearestNeighborModel.h",
+               "include/shark/Models/AbstractModel.h", "include/shark/Models/Classifier.h", "include/shark/Data/Dataset.h",
+               "include/shark/Data/DataView.h", "include/shark/Core/OpenMP.h"]
+
+
+def build_tsan(ctx):
+    """harness/c17_mt.cpp with clang-14 -fsanitize=thread + libomp + Archer (the recipe of checks/c20.py); keyed by the
+    harness source and the state of the checked tree"""
+    inc = ctx.shark_h()
+    exe = os.path.join(core.CACHE, "bin", "c17_mt_tsan" + _suffix())
+    os.makedirs(os.path.dirname(exe), exist_ok=True)
+    src = os.path.join(core.VERIF, "harness", "c17_mt.cpp")
+    git = lambda *a: subprocess.run(["git", "-C", core.REPO, *a], capture_output=True, text=True).stdout
+    key = core.sha(core.file_sha(src) + core.file_sha(os.path.join(core.VERIF, "harness", "common.hpp")) +
+                   git("rev-parse", "HEAD") + git("status", "--porcelain", "--untracked-files=no") + git("diff"))
+    kf = exe + ".key"
+    if os.path.exists(exe) and os.path.exists(kf) and open(kf).read() == key:
+        return exe
+    cmd = ["clang++-14", "-std=c++14", "-O1", "-g", "-DNDEBUG", "-w", "-fopenmp", "-fsanitize=thread",
+           "-I" + inc, "-I" + os.path.join(core.REPO, "include"), "-I" + os.path.join(core.VERIF, "harness"),
+           src, "-o", exe, "-lboost_serialization", "-lboost_system", "-lopenblas"]
+    rc, out = core.sh(cmd, timeout=1800)
+    if rc != 0:
+        ctx.log("TSan build failed:\n" + out[-3000:])
+        ctx.broken("harness-build", "c17_mt_tsan", out[-2000:])
+        return None
+    open(kf, "w").write(key)
+    return exe
+
+
+# --------------------------------------------------------------------------- fresh tree shared by threads
+def gen_mt_case(r, ctx, kinds, reps, tag="mt"):
+    """one data set (integer grid cloud OFFSET from the origin by large dyadic values, so that a bound computed from
+    anything but the cell is far off), one `mt` op: `reps` fresh trees, each evaluated at once by T >= 2 threads on a
+    query data set of several batches.  Half of the cases give every batch the SAME query points, so that the threads
+    reach the same (not yet visited) nodes of the fresh tree at the same time."""
+    kind = r.choice(kinds)
+    dim = r.choice([1, 2, 2, 3, 3, 5, 8] if kind != "khcp" else [1, 2, 3, 4])
+    n = r.choice([24, 40, 64, 64, 96, 128, 160])
+    maxoff = {"kd": 20, "lc": 10, "khc": 10, "khcp": 5}[kind]
+    off = [r.choice([-1, 1]) * (1 << r.range(maxoff // 2, maxoff)) for _ in range(dim)]
+    if r.chance(1, 6): off = [0] * dim
+    span = r.choice([4, 16, 64, 64])          # small span: many ties and duplicates
+    pts = [[off[d] + r.range(0, span - 1) for d in range(dim)] for _ in range(n)]
+    e = r.choice(SCALES + [0, 0, 0, 0]) if kind != "khcp" else 0
+    nc = r.range(2, 4)
+    labels = [r.below(nc) for _ in range(n)]; labels[r.below(n)] = nc - 1
+    T = r.choice([2, 2, 3, 4])
+    qb = r.choice([1, 2, 4, 6])                 # query points per batch
+    nbat = T * r.choice([1, 1, 2])              # >= 2 batches, at least one per thread
+    def q():
+        x = r.below(10)
+        if x < 6: return [off[d] + r.range(-3, span + 2) for d in range(dim)]
+        if x < 8: return list(r.choice(pts))
+        return [r.choice([0, -off[d], 3 * off[d] + 1]) for d in range(dim)]      # far outside (the origin, the mirror image)
+    aligned = r.chance(1, 2)
+    base = [q() for _ in range(qb)]
+    qs = []
+    for b in range(nbat):
+        qs += base if aligned else [q() for _ in range(qb)]
+    bucket = r.choice([1, 1, 1, 0, 2, 4]); depth = r.choice([0, 0, 0, 3, 6])
+    k = r.choice([1, 1, 2, 3, 5, n if n <= 40 else 7])
+    ctx.hist(tag + "_tree_kind", kind); ctx.hist(tag + "_threads", T); ctx.hist(tag + "_query_batches", nbat)
+    ctx.hist(tag + "_same_queries_in_every_batch", aligned); ctx.hist(tag + "_scale_2^e", e)
+    ctx.hist(tag + "_offset_log2", max((abs(o).bit_length() - 1 if o else 0) for o in off)); ctx.hist(tag + "_bucket", bucket)
+    ctx.count(tag + "_fresh_trees", reps)
+    return [f"scale {e}", f"batch {r.choice([0, 0, 1, 7, 1000])}", f"data {dim} {n} " + " ".join(str(x) for p in pts for x in p),
+            "labels " + " ".join(map(str, labels)),
+            f"mt {kind} {depth} {bucket} {k} {T} {reps} {qb} " + " ".join(str(x) for p in qs for x in p)]
+
+
+MT_ENV = {"OMP_WAIT_POLICY": "active", "GOMP_SPINCOUNT": "100000", "OMP_DYNAMIC": "false"}
+
+
+def run_mt(ctx, name, cases, hcmd, dcmd, env=MT_ENV):
+    """the fresh-tree family: one run of harness and driver over all cases; a failing case is reported from THIS run
+    (a race does not repeat on demand: no isolation / shrinking re-runs)"""
+    all_ops = [l for c in cases for l in c]
+    big = core.run_case(ctx, hcmd, dcmd, all_ops, env=env, timeout=1800)
+    ctx.count("traces_validated_against_impl", len(cases)); ctx.count("ops_compared", len(all_ops))
+    if big.ok:
+        ctx.log(f"{name}: {len(cases)} cases / {len(all_ops)} ops agree")
+        return 0
+    if big.crash or len(big.impl) != len(all_ops) or len(big.model) != len(all_ops):
+        return core.correspond(ctx, name, cases, hcmd, dcmd, classify, env=env, keep_prefix=4)
+    pos, seen, nbad = 0, set(), 0
+    for c in cases:
+        impl, model = big.impl[pos:pos + len(c)], big.model[pos:pos + len(c)]
+        pos += len(c)
+        res = core.CaseResult()
+        res.impl, res.model = impl, model
+        res.oracle = [l for l in impl if "!oracle" in l]
+        res.diff_at = core.Ctx.first_diff([l.split(" !oracle")[0] for l in impl], model)
+        if not res.oracle and res.diff_at is None:
+            continue
+        nbad += 1
+        key, what = classify(c, res)
+        if key in seen or len(seen) >= 4:
+            continue
+        seen.add(key)
+        b = ctx.broken("correspondence", f"{name}:{key}", what); b["resolved"] = True
+        ctx.violation(key, {"harness_cmd": hcmd, "driver_cmd": dcmd, "ops": c, "impl_output": impl[-3:], "model_output": model[-3:],
+                            "first_diff_line": res.diff_at, "oracle": res.oracle[:5], "env": env,
+                            "note": "concurrent use of a fresh tree: the failure depends on the thread schedule; replay repeats the op"},
+                      found_input=bool(res.oracle), what=what)
+    ctx.log(f"{name}: {nbad} of {len(cases)} cases FAIL")
+    return nbad
+
+
+def run_tsan(ctx, tsan, cases):
+    env = dict(os.environ)
+    env.update({"TSAN_OPTIONS": "ignore_noninstrumented_modules=1 halt_on_error=0 exitcode=0", "OMP_NUM_THREADS": "4"})
+    ops = [l for c in cases for l in c]
+    try:
+        p = subprocess.run([tsan], input="\n".join(ops) + "\n", capture_output=True, text=True, errors="replace", env=env, timeout=1500)
+    except subprocess.TimeoutExpired:
+        ctx.broken("tsan", "c17_mt_tsan", "timeout"); return
+    races = re.findall(r"WARNING: ThreadSanitizer: data race.*?(?=\n=+\n|\Z)", p.stderr, flags=re.S)
+    ctx.cov["tsan_reports"] = len(races); ctx.cov["tsan_cases"] = len(cases)
+    lines = p.stdout.splitlines()
+    if p.returncode != 0 or len(lines) != len(ops):
+        ctx.violation("crash:c17_mt_tsan", {"harness_cmd": [tsan], "ops": ops[-5:], "stderr": p.stderr[-2000:]}, True,
+                      "ThreadSanitizer build of the fresh-tree family crashed")
+    sites = set()
+    for rep in races:
+        fr = re.findall(r"#\d+ .*? (/[^\s:]+):(\d+)(?::\d+)? \(", rep)
+        inrepo = [(f, ln) for f, ln in fr if f.startswith(os.path.abspath(core.REPO) + "/")]
+        site = next((f"{os.path.relpath(f, os.path.abspath(core.REPO))}:{ln}" for f, ln in inrepo), None) or "outside-the-repo-tree"
+        if site in sites or len(sites) >= 3:
+            continue
+        sites.add(site)
+        ctx.violation(f"tsan:{site}", {"harness_cmd": [tsan], "ops": ops, "env": {"TSAN_OPTIONS": env["TSAN_OPTIONS"], "OMP_NUM_THREADS": "4"},
+                                       "report": rep[:3000], "tsan": True}, True,
+                      f"ThreadSanitizer: data race at {site} while several threads query one const tree")
+    for i, l in enumerate(lines):
+        if "!oracle" in l:
+            ctx.violation(oracle_keys(l)[0], {"harness_cmd": [tsan], "ops": ops, "line": l, "tsan": True}, True,
+                          f"property oracle failed under the ThreadSanitizer build: {l[-200:]}")
+            break
+    ctx.log(f"K-C17[fresh tree, TSan]: {len(cases)} cases, {len(races)} race reports")
+    return len(races)
 
 
 R1_PROBE = [["data 1 1 2", "labels 1", "build kd 0 1", "query 1"],
@@ -415,18 +609,22 @@ KH1_PROBE = [["data 1 2 -3 2", "labels 0 1", "build khcp 0 1", "query -1", "knn 
 
 
 def run(ctx):
-    ctx.trusted += ["correspondence harness harness/c17.cpp + generator checks/c17.py + tools/c17_drv.py",
+    ctx.trusted += ["correspondence harness harness/c17.cpp + harness/c17_mt.cpp + generator checks/c17.py + tools/c17_drv.py",
+                    "translator translate/nn_stateless.py (token-level scan shared with translate/par_regions.py); clang-14 ThreadSanitizer + libomp + Archer",
                     "hand-written model Model/NN.lean (TreeNearestNeighbors.h, KDTree.h, LCTree.h, KHCTree.h, BinaryTree.h, NearestNeighborModel.h are modelled, not translated)",
                     "leaf order, node address ranks and the LC/KHC pivot pairs are read from the real tree; LC/KHC real (rounded) lower bounds drive the query model (checked for admissibility per query and against the ideal model's bounds)",
                     "ASan/UBSan runtime for the real code's memory safety (not a theorem)"]
-    ctx.assumptions += ["integer coordinates (|x| <= 2000, <= 6 dimensions): all squared distances and kd bounds are exact in double",
+    ctx.assumptions += ["integer coordinates (|x| <= 2000, <= 6 dimensions; fresh-tree family: |x| <= 2^20 + 64, <= 8 dimensions) times 2^e, |e| <= 40: all squared distances and kd bounds are exact in double",
+                        "shared-tree use is sampled: 2-4 OpenMP threads, the schedules that occur in the repetitions; ThreadSanitizer's happens-before analysis of those runs",
                         "next() is called at most n times per query (the C++ precondition)",
                         "kd_search_exact needs no hypothesis on the tree; LC/KHC theorems are about ideal arithmetic (the C++ rounds), their leaf-queue version assumes LeafUniform (checked on every real tree by the harness)",
                         "points and query have the same number of coordinates"]
+    translate(ctx)
     ctx.prove(PROP_MODULES)
     if not ctx.quick:
         ctx.leanchecker(PROP_MODULES)
     exe = build(ctx)
+    mt_exe, tsan_exe = getattr(ctx, "_c17_mt", (None, None))
     drv = ctx.driver("drv_c17")
     if not exe or not drv:
         return
@@ -481,12 +679,29 @@ def run(ctx):
         else:
             core.correspond(ctx, "K-C17[NB1-probe]", NB1_PROBE, hcmd, dcmd, classify, env=ENV, keep_prefix=4)
 
-    nA, nB, nC = (2000, 500, 1000) if ctx.quick else (16000, 4000, 8000)
+    # ---- a FRESH tree shared by >= 2 threads (model(dataset) / getNeighbors on several batches at once), every run
+    kinds_all = ["lc", "khc", "khcp"] if khcp_ok else ["lc", "khc"]
+    rm = ctx.rng.fork("c17mt")
+    if mt_exe:
+        nM, reps = (48, 12) if ctx.quick else (400, 16)
+        mt_cases = [gen_mt_case(rm, ctx, ["kd", "kd", "kd"] + kinds_all, reps) for _ in range(nM)]
+        ctx.cov["fresh_tree_concurrent_cases"] = len(mt_cases)
+        ctx.sample({"fresh_tree_op": [o[:160] for o in mt_cases[0]]})
+        run_mt(ctx, "K-C17[fresh tree, >= 2 threads]", mt_cases, [mt_exe], [drv])
+    if tsan_exe:
+        ts_cases = [gen_mt_case(rm, ctx, ["kd", "kd"] + kinds_all, 3, tag="tsan") for _ in range(6 if ctx.quick else 40)]
+        run_tsan(ctx, tsan_exe, ts_cases)
+
+    nA, nB, nC, nS = (2000, 500, 1000, 360) if ctx.quick else (16000, 4000, 8000, 3600)
     groups = [
         ("kd,bucket=1", [gen_case(r, ctx, ["kd"], lc_dups_ok, True, [1, 1, 1, 0]) for _ in range(nA)]),
         ("kd,bucket>1", [gen_case(r, ctx, ["kd"], lc_dups_ok, True, [2, 3, 4]) for _ in range(nB)]),
-        ("lc+khc", [gen_case(r, ctx, ["lc", "khc", "khcp"] if khcp_ok else ["lc", "khc"], lc_dups_ok, True, [1, 1, 0, 2, 3, 4])
+        ("lc+khc", [gen_case(r, ctx, kinds_all, lc_dups_ok, True, [1, 1, 0, 2, 3, 4])
                     for _ in range(nC)]),
+        # every scale 2^e of the list gets its share of cases on every run (all tree kinds, all bucket sizes); squared
+        # distances stay exact, so the brute-force oracle applies unchanged
+        ("scaled 2^e", [gen_case(r, ctx, ["kd", "kd", "lc", "khc"], lc_dups_ok, True, [1, 1, 0, 2, 3, 4], scales=[SCALES[i % len(SCALES)]])
+                        for i in range(nS)]),
     ]
     allcases = [c for _, cs in groups for c in cs]
     ctx.cov["evaluations"] = len(allcases) + len(corpus)
@@ -503,6 +718,12 @@ def run(ctx):
     correspond(ctx, "K-C17[3 threads]", mt, hcmd, dcmd, ENV=dict(ENV, OMP_NUM_THREADS="3"))
     drv_stats(ctx)
     shutil.rmtree(ANNOT, ignore_errors=True)
+    # a broken generated obligation (hidden state in the shared classes / a changed pruning test) for which the run
+    # produced a concrete failing input is reported through that input
+    if any(found for _, found in ctx.violations):
+        for b in ctx.breaks:
+            if "NNStateless" in b["name"]:
+                b["resolved"] = True
     ctx.sample({"theorems": ["radius_is_lower_bound", "next_returns_min", "next_distances_nondecreasing",
                              "tree_knn_eq_bruteforce", "search_exact_of_ready", "next_wrong_without_leafuniform", "k1Tree_hypotheses",
                              "k1_exact_for_leaf_distance", "indexList_perm", "split_partitions", "split_separates",
@@ -516,6 +737,20 @@ def run(ctx):
 
 def replay(ctx, rep):
     exe = build(ctx); drv = ctx.driver("drv_c17")
+    mt_exe, tsan_exe = getattr(ctx, "_c17_mt", (None, None))
+    if rep.get("tsan"):
+        n = run_tsan(ctx, tsan_exe, [rep["ops"]])
+        print("FAILS" if (n or ctx.violations) else "OK")
+        return 1 if (n or ctx.violations) else 0
+    if any(o.startswith("mt ") for o in rep["ops"]):
+        # schedule dependent: repeat the op a few times
+        bad = 0
+        for _ in range(5):
+            res = core.run_case(ctx, [mt_exe], [drv], rep["ops"], env=rep.get("env") or MT_ENV)
+            bad += 0 if res.ok else 1
+        print("\n".join(f"impl : {a[:300]}\nmodel: {b[:300]}" for a, b in zip(res.impl, res.model)))
+        print(f"FAILS in {bad} of 5 runs" if bad else "OK")
+        return 1 if bad else 0
     os.makedirs(ANNOT, exist_ok=True)
     res = core.run_case(ctx, [exe, ANNOT], [sys.executable, DRV_WRAPPER, drv, ANNOT], rep["ops"], env=ENV)
     print("\n".join(f"impl : {a}\nmodel: {b}" for a, b in zip(res.impl, res.model)))
